@@ -27,9 +27,10 @@ OPS = {
     '+': ['-'], '-': ['+'], '+=': ['-='], '-=': ['+='], '&&': ['||'], '||': ['&&'],
     'min': ['max'], 'max': ['min'], '0': ['1'], '1': ['0', '2'], 'true': ['false'], 'false': ['true'],
     'saturating_sub': ['wrapping_sub'], 'saturating_add': ['wrapping_add'], 'checked_add': ['wrapping_add'],
-    'is_none': ['is_some'], 'is_some': ['is_none'], 'begin': ['end'], 'len': ['cap'],
+    'is_none': ['is_some'], 'is_some': ['is_none'],
     'buf_len': ['buf_capacity'], 'advance_to': ['advance'],
 }
+STRUCTURAL = True   # also: delete an expression statement, drop the right operand of a `+`/`-`, drop a `.min(..)`/`.max(..)` call
 
 
 def run_unit(unit, repo):
@@ -83,22 +84,58 @@ def main():
         # only the body: tokens after the first '{' of the item
         inside = [t for t in toks if lo <= t.line <= hi]
         seen_brace = False
-        for t in inside:
-            if t.text == '{':
-                seen_brace = True
-            if not seen_brace or t.text not in OPS:
+        cands = []   # (start, end, replacement, label, line)
+        body_started = False
+        for k, t in enumerate(inside):
+            if t.text == '{' and not body_started:
+                body_started = True
                 continue
-            for rep in OPS[t.text]:
+            if not body_started:
+                continue
+            for rep in OPS.get(t.text, []):
+                cands.append((t.start, t.end, rep, f'`{t.text}`->`{rep}`', t.line))
+            if not STRUCTURAL:
+                continue
+            # statement deletion: tokens after ; { } up to the next ';' at the same depth
+            prev = inside[k - 1].text if k > 0 else ''
+            if prev in (';', '{', '}') and t.kind == 'ident' and t.text not in ('let', 'return', 'if', 'match', 'while', 'loop',
+                                                                          'for', 'unsafe', 'break', 'continue', 'else'):
+                d = 0
+                j = k
+                while j < len(inside):
+                    x = inside[j]
+                    if x.text in rtok.OPEN:
+                        d += 1
+                    elif x.text in rtok.CLOSE:
+                        d -= 1
+                        if d < 0:
+                            break
+                    elif x.text == ';' and d == 0:
+                        cands.append((t.start, x.end, '', 'delete statement', t.line))
+                        break
+                    j += 1
+            # drop `.min(..)` / `.max(..)`
+            if t.text == '.' and k + 2 < len(inside) and inside[k + 1].text in ('min', 'max') and inside[k + 2].text == '(':
+                e = rtok.match_close(inside, k + 2)
+                cands.append((t.start, inside[e].end, '', f'drop .{inside[k + 1].text}(..)', t.line))
+            # drop right operand of + / - when it is a single token
+            if t.text in ('+', '-') and k + 2 < len(inside) and inside[k + 1].kind in ('ident', 'num') \
+                    and inside[k + 2].text in (')', ';', ',', '.', ']'):
+                if inside[k + 2].text != '.':
+                    cands.append((t.start, inside[k + 1].end, '', f'drop `{t.text} {inside[k + 1].text}`', t.line))
+        for (st_, en_, rep, label, line) in cands:
+            t = None
+            if True:
                 if n >= a.max:
                     break
                 n += 1
-                mutated = src[:t.start] + rep + src[t.end:]
+                mutated = src[:st_] + rep + src[en_:]
                 open(path, 'w').write(mutated)
                 st, info = run_unit(a.unit, a.repo)
-                line_text = src.split('\n')[t.line - 1].strip()
-                results.append({'fn': f['id'], 'file': f['file'], 'line': t.line, 'from': t.text, 'to': rep,
+                line_text = src.split('\n')[line - 1].strip()
+                results.append({'fn': f['id'], 'file': f['file'], 'line': line, 'mutation': label,
                                 'status': st, 'info': info, 'text': line_text[:100]})
-                print(f'{st:9s} {f["file"]}:{t.line} `{t.text}`->`{rep}`  [{f["name"]}]  {line_text[:70]}')
+                print(f'{st:9s} {f["file"]}:{line} {label}  [{f["name"]}]  {line_text[:70]}')
                 open(path, 'w').write(src)
     subprocess.run(['git', '-C', a.repo, 'checkout', '-q', '--', '.'])
     k = sum(1 for r in results if r['status'] == 'killed')
